@@ -29,6 +29,7 @@ func (fr *Frame) call(instr ssa.Instruction, cc *ssa.CallCommon, st *State, reac
 	for _, a := range cc.Args {
 		args = append(args, fr.val(a, st))
 	}
+	fr.callsiteChecks(cc, args, st, reach, pos)
 	if cc.IsInvoke() {
 		recv := fr.val(cc.Value, st)
 		return fr.invoke(cc, recv, args, resT, st, reach, pos)
@@ -237,6 +238,14 @@ func (c *FnCtx) applyHavoc(st, old *State, ms *ModSet, mayAlloc bool) {
 		st.heaps[h] = nh
 	}
 	for g := range ms.ghost {
+		if g == "lastsent.*" {
+			for k, srt := range c.ghostSorts {
+				if strings.HasPrefix(k, "lastsent.") {
+					st.ghost[k] = c.smt.declareFresh("ghost."+k, srt)
+				}
+			}
+			continue
+		}
 		if srt, ok := c.ghostSorts[g]; ok {
 			st.ghost[g] = c.smt.declareFresh("ghost."+g, srt)
 		}
@@ -797,4 +806,49 @@ func (fr *Frame) appendOne(args []Val, v Val, resT types.Type, st *State) Val {
 		sto(h, nb, arr)))
 	c.heapSet(st, "alloc", allocSort, ite(inPlace, al, sto(al, nb, "true")))
 	return Val{T: resT, Term: r}
+}
+
+// callsiteChecks: `callsite <name> requires e` clauses of the enclosing function's contract are
+// obligations at every call of a function or method with that name; e is evaluated with the
+// callee's parameter names bound to the arguments (and the caller's own names available).
+func (fr *Frame) callsiteChecks(cc *ssa.CallCommon, args []Val, st *State, reach string, pos token.Pos) {
+	if fr.contract == nil {
+		return
+	}
+	var name string
+	var sig *types.Signature
+	if cc.IsInvoke() {
+		name = cc.Method.Name()
+		sig = cc.Method.Type().(*types.Signature)
+	} else if f := cc.StaticCallee(); f != nil {
+		name = f.Name()
+		sig = f.Signature
+		if sig.Recv() != nil && len(args) > 0 {
+			args = args[1:]
+		}
+	} else {
+		return
+	}
+	for _, cl := range fr.contract.clauses("callsite") {
+		if cl.Label != name {
+			continue
+		}
+		env := fr.env(st)
+		for i := 0; i < sig.Params().Len() && i < len(args); i++ {
+			if n := sig.Params().At(i).Name(); n != "" && n != "_" {
+				v := args[i]
+				v.T = sig.Params().At(i).Type()
+				env.names[n] = v
+			}
+			env.names[fmt.Sprintf("arg%d", i)] = args[i]
+		}
+		for _, cj := range conjuncts(cl.Expr) {
+			t, err := env.evalBool(cj)
+			if err != nil {
+				fr.bindFailure(cl, err)
+				continue
+			}
+			fr.oblige("callsite", name+" requires "+cj.String(), reach, t, pos)
+		}
+	}
 }
